@@ -454,7 +454,15 @@ def q_ivs(ivs):
     return "[" + "; ".join("(%s, %s)" % (cz(a), cz(b)) for a, b in ivs) + "]"
 
 
-PRELUDE = "From TskVerif Require Import Base.Common C11.Model.\nOpen Scope Z_scope."
+PRELUDE = "From TskVerif Require Import Base.Common C11.Model C11.Collection.\nOpen Scope Z_scope."
+
+
+def with_prov(term, case, obs, has_arg):
+    """also tie the number of provenance rows the model predicts (Collection.v) to the observed one"""
+    if term is None or "nprov" not in obs:
+        return term
+    return "(%s) && (prov_rows_added %s %s =? %d)" % (term, "true" if has_arg else "false",
+                                                      "true" if case.get("prov") else "false", obs["nprov"])
 
 
 def q_expect(obs):
@@ -823,7 +831,7 @@ class Intervals(Flagged):
         if exp is None:
             return None
         fn = "keep_intervals_c" if case["op"] == "keep_intervals" else "delete_intervals_c"
-        return "res_tables_eqb (%s %s %s) (canon_res %s)" % (fn, q_ivs(case["intervals"]), q_tables(obs["in"]), exp)
+        return with_prov("res_tables_eqb (%s %s %s) (canon_res %s)" % (fn, q_ivs(case["intervals"]), q_tables(obs["in"]), exp), case, obs, True)
 
     def nontrivial(self, case, obs):
         return bool(case["intervals"]) and bool(case["desc"]["edges"]) and "error" not in obs
@@ -1027,7 +1035,7 @@ class Trim(Flagged):
             return None
         emd, gmd, cf = trim_facts()
         flags = {"ltrim": "%s %s %s" % (emd, gmd, cf), "rtrim": cf, "trim": "%s %s %s" % (emd, gmd, cf)}[case["op"]]
-        return "res_tables_eqb (%s_c %s %s) %s" % (case["op"], flags, q_tables(obs["in"]), exp)
+        return with_prov("res_tables_eqb (%s_c %s %s) %s" % (case["op"], flags, q_tables(obs["in"]), exp), case, obs, True)
 
     def nontrivial(self, case, obs):
         d = case["desc"]
@@ -1130,7 +1138,7 @@ class DelSites(Flagged):
         exp = q_expect(obs)
         if exp is None:
             return None
-        return "res_tables_eqb (delete_sites_c %s %s) %s" % (clist(case["ids"]), q_tables(obs["in"]), exp)
+        return with_prov("res_tables_eqb (delete_sites_c %s %s) %s" % (clist(case["ids"]), q_tables(obs["in"]), exp), case, obs, True)
 
     def nontrivial(self, case, obs):
         return bool(case["ids"]) and "error" not in obs and bool(case["desc"]["mutations"])
@@ -1387,11 +1395,11 @@ class TimeCut(Flagged):
             return None
         op = case["op"]
         if op == "delete_older":
-            return "res_tables_eqb (delete_older_c %s %s) %s" % (cz(case["time2"]), q_tables(obs["in"]), exp)
+            return with_prov("res_tables_eqb (delete_older_c %s %s) %s" % (cz(case["time2"]), q_tables(obs["in"]), exp), case, obs, False)
         npop = len(case["desc"]["populations"])
-        return "res_tables_eqb (%s_c %s %s %s %s %s %s) (canon_res %s)" % (
+        return with_prov("res_tables_eqb (%s_c %s %s %s %s %s %s) (canon_res %s)" % (
             op, cz(case["time2"]), cz(case.get("flags", 0)), cz(case.get("population", NULL)),
-            hexl(case.get("metadata", "7b7d" if case.get("ctx") else "")), cz(npop), q_tables(obs["in"]), exp)
+            hexl(case.get("metadata", "7b7d" if case.get("ctx") else "")), cz(npop), q_tables(obs["in"]), exp), case, obs, False)
 
     def nontrivial(self, case, obs):
         if "error" in obs:
@@ -1728,6 +1736,42 @@ class Extend(Flagged):
             fails.append((op + ":simplify-differs" + (":mutation-on-absent-node" if absent and set(obs.get("simplify_diff") or ["?"]) <= {"sites", "mutations"} else ""),
                           "%r %r" % (obs["simplify_equal"], obs.get("simplify_diff"))))
         return dedup(fails)
+
+    prelude = ("From TskVerif Require Import Base.Common C11.Model C11.ExtendSpec C11.ExtendCheck.\n"
+               "Open Scope Z_scope.")
+
+    def coq_check(self, case, obs):
+        """Translation validation: the Coq checker [check_extend] (proved sound: acceptance implies
+        that every ancestor chain of the input tree inherits the same state in the output) is
+        evaluated on the implementation's output.  It must accept exactly when no mutation sits
+        above a node that is absent from the input tree at its site (finding F15's class)."""
+        if "out" not in obs:
+            return None
+        inp, out = obs["in"], obs["out"]
+        if any(m[4] is None for m in inp["mutations"]) or len(inp["mutations"]) != len(out["mutations"]):
+            return None
+        N = len(inp["nodes"])
+        codes = {}
+
+        def code(sx):
+            return codes.setdefault(sx, len(codes) + 1)
+
+        def sm(m):
+            return "(mkSM %s %s %s)" % (cz(m[1]), cz(m[4]), cz(code(m[2])))
+        expected = True
+        sites = []
+        for i, st in enumerate(inp["sites"]):
+            pos = st[0]
+            idx = [j for j, m in enumerate(inp["mutations"]) if m[0] == i]
+            for j in idx:
+                u = inp["mutations"][j][1]
+                if not any(e[0] <= pos < e[1] and u in (e[2], e[3]) for e in inp["edges"]):
+                    expected = False
+            sites.append("(%s, %s, %s)" % (cz(pos), "[" + "; ".join(sm(inp["mutations"][j]) for j in idx) + "]",
+                                           "[" + "; ".join(sm(out["mutations"][j]) for j in idx) + "]"))
+        return "Bool.eqb (check_extend %s %s %s %d%%nat %s [%s]) %s" % (
+            q_list(inp["edges"], q_edge), q_list(out["edges"], q_edge), clist(range(N)), N + 1,
+            clist([r[1] for r in inp["nodes"]]), "; ".join(sites), "true" if expected else "false")
 
     def nontrivial(self, case, obs):
         return "out" in obs and sorted(obs["out"]["edges"]) != sorted(obs["in"]["edges"])
